@@ -5,7 +5,7 @@ from .common import *
 PID = "C08"
 TARGETS = ["Props/C08.vo"]
 ALPHA = ["0", "1", "9", "a", "Z", ".", "-", "+", "v", "١", "é"]
-KNOWN_RANGE = "numeric-field>=2^64"
+KNOWN_RANGE = "core-number>=2^64"
 
 
 def regen():
